@@ -313,6 +313,110 @@ def check(ctx):
             return [u(e_)]
         ok = ok and len(tests) == 1 and types_of(tests[0].args[1]) == sorted(['int', 'float', 'decimal.Decimal'])
     run.check(ok, 'NUM', kc.where, kident, 'sign bit inverted; negatives fully inverted; hex', 'the numeric encoding no longer preserves numeric order')
+    # which values are encoded, and which fragment is appended: by the tests that enclose the statements (polarity included)
+    from sa.model import dominating_atoms
+    if len(enc) == 1:
+        at_ = dominating_atoms(enc[0][0], kc.node)
+        is_num = any(pol_ and isinstance(t_, ast.Call) and u(t_.func) == 'isinstance' and pseudo(t_.args[0]) == enc[0][1]['_v']
+                     for t_, pol_ in at_)
+        neg_num = any((not pol_) and isinstance(t_, ast.Call) and u(t_.func) == 'isinstance' and pseudo(t_.args[0]) == enc[0][1]['_v']
+                      for t_, pol_ in at_)
+        # the "raw" condition: no formatter, or the bare {field} formatter - as a name bound in the loop or spelled out
+        raw_pos = any(pol_ and (isinstance(t_, ast.Name) or 'formatters' in u(t_)) and not (isinstance(t_, ast.Call)) for t_, pol_ in at_)
+        run.check(is_num and not neg_num and raw_pos, 'NUM', where(repo, enc[0][0]), kident,
+                  'encoded exactly when the field is raw (no formatter of its own) and its value is a number',
+                  'the order-preserving encoding is applied to the wrong values (to non-numbers, or not to raw numeric fields): numbers are '
+                  'then compared as text ("10" < "9")')
+    fmt_frag = [a for a in frags if isinstance(a, ast.Call) and isinstance(a.func, ast.Attribute) and a.func.attr == 'format']
+    str_frag = [a for a in frags if match_expr('str(_v)', a) is not None]
+    if fmt_frag and str_frag:
+        def _stmt_of(e_):
+            while getattr(e_, '_parent', None) is not None and not isinstance(e_, ast.stmt):
+                e_ = e_._parent
+            return e_
+        # decided on the two cases of the key specification - a format string (formatters: a list of format texts) or a field list /
+        # callable (formatters: None) - by evaluating the enclosing tests on each (three-valued; locals of the loop resolved)
+        once_k = {}
+        for a_ in ast.walk(kc.node):
+            if isinstance(a_, ast.Assign) and len(a_.targets) == 1 and isinstance(a_.targets[0], ast.Name):
+                once_k.setdefault(a_.targets[0].id, []).append(a_.value)
+
+        once_a = {}
+        for a_ in ast.walk(kc.node):
+            if isinstance(a_, ast.Assign) and len(a_.targets) == 1 and isinstance(a_.targets[0], ast.Name):
+                once_a.setdefault(a_.targets[0].id, []).append(a_)
+        zipped = {}
+        for l_ in ast.walk(kc.node):
+            if isinstance(l_, ast.For) and isinstance(l_.iter, ast.Call) and u(l_.iter.func) == 'zip' and isinstance(l_.target, ast.Tuple) \
+                    and len(l_.target.elts) == len(l_.iter.args):
+                for t_, a_ in zip(l_.target.elts, l_.iter.args):
+                    if isinstance(t_, ast.Name):
+                        zipped[t_.id] = a_
+
+        def kind(e_, case, d=0):
+            if d > 5:
+                return None
+            if isinstance(e_, ast.Constant):
+                return 'none' if e_.value is None else 'value'
+            if isinstance(e_, ast.Name) and e_.id == 'formatters':
+                return 'value' if case == 'format' else 'none'
+            if isinstance(e_, ast.Subscript) and isinstance(e_.value, ast.Name) and e_.value.id == 'formatters':
+                return 'value' if case == 'format' else None
+            if isinstance(e_, ast.IfExp):
+                t3 = tv(e_.test, case, d + 1)
+                return kind(e_.body if t3 else e_.orelse, case, d + 1) if t3 is not None else None
+            if isinstance(e_, ast.Name) and len(once_k.get(e_.id, [])) == 1:
+                return kind(once_k[e_.id][0], case, d + 1)
+            if isinstance(e_, ast.Name) and len(once_a.get(e_.id, [])) == 2:
+                # bound in the two branches of one `if` (x = A if c else B, written as a statement)
+                a1, a2 = once_a[e_.id]
+                par = getattr(a1, '_parent', None)
+                if isinstance(par, ast.If) and getattr(a2, '_parent', None) is par and a1 in par.body and a2 in par.orelse:
+                    t3 = tv(par.test, case, d + 1)
+                    return kind((a1 if t3 else a2).value, case, d + 1) if t3 is not None else None
+            if isinstance(e_, ast.Name) and e_.id in zipped:
+                # a loop variable taken from zip(.., <formatters or itertools.repeat(None)>): an element of whichever is iterated
+                src = zipped[e_.id]
+                if isinstance(src, ast.BoolOp) and isinstance(src.op, ast.Or) and len(src.values) == 2:
+                    t3 = tv(src.values[0], case, d + 1)
+                    if t3 is None:
+                        return None
+                    src = src.values[0] if t3 else src.values[1]
+                if isinstance(src, ast.Name) and src.id == 'formatters':
+                    return 'value' if case == 'format' else None
+                if isinstance(src, ast.Call) and u(src.func) in ('itertools.repeat', 'repeat') and src.args:
+                    return kind(src.args[0], case, d + 1)
+            return None
+
+        def tv(e_, case, d=0):
+            if d > 5:
+                return None
+            if isinstance(e_, ast.UnaryOp) and isinstance(e_.op, ast.Not):
+                v_ = tv(e_.operand, case, d + 1)
+                return None if v_ is None else (not v_)
+            if isinstance(e_, ast.Compare) and len(e_.ops) == 1 and isinstance(e_.ops[0], (ast.Is, ast.IsNot)) and \
+                    isinstance(e_.comparators[0], ast.Constant) and e_.comparators[0].value is None:
+                k_ = kind(e_.left, case, d + 1)
+                if k_ is None:
+                    return None
+                return (k_ == 'none') if isinstance(e_.ops[0], ast.Is) else (k_ != 'none')
+            k_ = kind(e_, case, d + 1)
+            if k_ is not None:
+                return k_ == 'value'
+            return None
+
+        def reachable(stmt_, case):
+            for t_, pol_ in dominating_atoms(stmt_, kc.node):
+                v_ = tv(t_, case)
+                if v_ is not None and v_ != pol_:
+                    return False
+            return True
+        sf, ss = _stmt_of(fmt_frag[0]), _stmt_of(str_frag[0])
+        okf = reachable(sf, 'format') and not reachable(sf, 'plain') and reachable(ss, 'plain') and not reachable(ss, 'format')
+        run.check(okf, 'NUM', where(repo, fmt_frag[0]), kident,
+                  'fragment = formatter.format(field=value) when the key is a format string, str(value) otherwise',
+                  'the key fragment is rendered with the wrong branch: a format string key is rendered with str() (its width / padding '
+                  'specification is ignored) or a field-list key with a formatter that does not exist')
     stream.r6_identity(ctx, [step])
     stream.r6_count_agreement(ctx, [step])
     run.trusted += ['LF5 KVFile: equal keys overwrite; items() iterates in ascending key order, reversed with reverse=True']
